@@ -1,65 +1,18 @@
-"""Per-property check specifications used by bin/check."""
+"""Per-property check specifications used by bin/check: one module per property in lib/specs/Cxx.py,
+each defining SPEC = {level, stages, technique, rule, claim, note, assumptions[, post]}.
+Optional lib/specs/Cxx.py may define NOT_APPLICABLE = "reason" instead of SPEC."""
+import glob
+import importlib.util
+import os
 
 PROPS = {}
 NOT_APPLICABLE = {}
-
-PROPS["C06"] = {
-    "level": "model_checking",
-    "stages": [{"name": "main", "harness": "C06_reassembly.cpp", "config": "san",
-                "deadline": {"quick": 240, "thorough": 1500}}],
-    "rule": ("explicit-state BFS to fixpoint over the real DataTracker (level a), Flow driven with IP/TCP/RawPDU packets and "
-             "callbacks (level b) and the legacy TCPStreamFollower (level c); alphabet = every segment (off,len) of a stream "
-             "of L distinct bytes plus stale/straddling segments before the ISN, every event always enabled; one BFS per ISN "
-             "with the 2^32 wrap point at every stream offset; state = (relative delivery point, relative chunk map, counters) "
-             "x model coverage mask; invariants on every transition: delivered = s[0:k] with k the contiguous arrived prefix, "
-             "no chunk at or below k, chunk bytes = stream bytes, total_buffered_bytes = sum of chunk sizes. "
-             "distinct_nontrivial = distinct product states holding >= 1 out-of-order chunk."),
-    "technique": "explicit-state BFS to fixpoint over the implementation with lock-step reference model",
-    "claim": ("Every reachable (implementation, model) product state for streams of L bytes, every ISN of a wrap-covering set and "
-              "every order/duplication/overlap of segments is visited and the delivery invariants are evaluated on every transition; "
-              "the reachable set is finite and explored to fixpoint, so within the bound this is a complete decision, not a sample."),
-    "note": "Trusted: clang ASan/UBSan, the harness' 30-line reference model; bound: stream length L, ISN set.",
-    "assumptions": ["segments carry bytes of one underlying stream (the property's premise)",
-                    "stream length bounded by L (6 quick / 8 thorough); by symmetry of the algorithm in absolute offsets "
-                    "larger streams add no new comparison outcomes beyond those of chunk-boundary orderings explored",
-                    "sanitizers: ASan+UBSan (alignment check off)"],
-}
-
-PROPS["C19"] = {
-    "level": "model_checking",
-    "stages": [{"name": "main", "harness": "C19_acktracker.cpp", "config": "san",
-                "deadline": {"quick": 300, "thorough": 2400}}],
-    "technique": "explicit-state BFS to fixpoint over the implementation with lock-step reference model",
-    "rule": ("BFS to fixpoint over (conforming receiver model) x (real AckTracker, standalone fed with parsed IP/TCP packets and "
-             "inside Flow with ACK tracking); events: segment i of N 3-byte segments arrives at the receiver, which emits an ACK "
-             "with its cumulative ACK and ANY subset (<= 3 quick / 4 thorough) of its out-of-order blocks as SACK option, delivered "
-             "or lost; one BFS per ISN, wrap point at every byte offset of the stream; in every state: ack_number = model, "
-             "acked_intervals as byte set = model SACKed bytes above the ACK, and is_segment_acked = model for EVERY query "
-             "(seq in [ISN-3, ISN+3N+3], len 0..3N+4). distinct_nontrivial = product states with >= 1 SACKed byte."),
-    "claim": ("All reachable product states of receiver x tracker for N segments are visited (finite, fixpoint), every ACK/SACK "
-              "choice a conforming receiver could make is a branch, and the full query grid is compared in each state."),
-    "note": "Trusted: sanitizers, the reference model (bitmask of SACKed bytes); bound: N segments, ISN set, no ACK reordering (property premise).",
-    "assumptions": ["receiver is conforming: cumulative ACK monotone, SACK blocks truthful and strictly above it",
-                    "ACK packets may be lost but are not reordered",
-                    "sanitizers: ASan+UBSan (alignment check off)"],
-}
-
-PROPS["C08"] = {
-    "level": "model_checking",
-    "stages": [{"name": "main", "harness": "C08_ipfrag.cpp", "config": "san",
-                "deadline": {"quick": 300, "thorough": 2400}}],
-    "technique": "explicit-state BFS to fixpoint over the implementation with lock-step reference model",
-    "rule": ("per configuration (datagram of n<=4 (quick) / 5 (thorough) 8-byte units + tail, protocol UDP/ICMP/TCP/unknown, EVERY "
-             "composition into >= 2 fragments, optional second datagram differing in id / source / direction / protocol, bare IP or "
-             "Ethernet root) a BFS to fixpoint over the real IPv4Reassembler (copied per state) x reference reassembler; events = every "
-             "fragment of either datagram (re-sendable: duplicates, also after completion), an unfragmented packet, a non-IP packet, an "
-             "MF|DF stray fragment; on every transition: status = reference status; on REASSEMBLED: header = first fragment's with "
-             "offset/MF cleared, upper layer parsed as the protocol's class with correct parent link, serialization byte-identical to "
-             "the original datagram; NOT_FRAGMENTED leaves the packet untouched. distinct_nontrivial = product states holding >= 2 fragments."),
-    "claim": ("Every interleaving, duplication and arrival order of the fragments of two concurrent datagrams is covered per configuration "
-              "(finite reachable set explored to fixpoint) and every partition shape of the payload up to the unit bound is a configuration."),
-    "note": "Trusted: sanitizers, harness' own IPv4 header writer + RFC 1071 checksum, reference reassembler. Bound: n units, two concurrent datagrams.",
-    "assumptions": ["fragments of one datagram do not overlap (property premise)",
-                    "datagram identity = (id, source, destination, protocol) as in RFC 791",
-                    "sanitizers: ASan+UBSan (alignment check off)"],
-}
+for _f in sorted(glob.glob(os.path.join(os.path.dirname(os.path.abspath(__file__)), "specs", "C*.py"))):
+    _pid = os.path.basename(_f)[:-3]
+    _spec = importlib.util.spec_from_file_location("specs_" + _pid, _f)
+    _m = importlib.util.module_from_spec(_spec)
+    _spec.loader.exec_module(_m)
+    if hasattr(_m, "SPEC"):
+        PROPS[_pid] = _m.SPEC
+    elif hasattr(_m, "NOT_APPLICABLE"):
+        NOT_APPLICABLE[_pid] = _m.NOT_APPLICABLE
